@@ -603,6 +603,9 @@ func runCase(c *core.Case) {
 		}
 		idx -= blockSize(h)
 	}
+	if idx < wsEntryCases() {
+		runWSEntry(c, idx)
+	}
 }
 
 func placement(kind string) string {
@@ -992,11 +995,11 @@ func Prop() *core.Prop {
 			for _, h := range handshakes(tier) {
 				n += blockSize(h)
 			}
-			return n
+			return n + wsEntryCases()
 		},
 		Run:        runCase,
 		Exhaustive: func(string) bool { return true },
-		Require: []string{"golden_ok", "golden_within_bounds", "fault_runs:eof", "fault_runs:wrbreak", "fault_runs:rdfail", "fault_runs:wrfail",
+		Require: []string{"golden_ok", "ws_entry_point_complete_handshakes", "ws_entry_point_failures_reported", "golden_within_bounds", "fault_runs:eof", "fault_runs:wrbreak", "fault_runs:rdfail", "fault_runs:wrfail",
 			"fault_runs:cancel-silent", "fault_runs:cancel-live", "fault_runs:cancel-blocked", "fault_runs:wrlost", "write_lost:last_write_of_handshake", "fault_runs:cancel-nodl", "fault_runs:precancel", "fault_runs:rdtimeout", "fault_runs:wrtimeout", "parse_errors_of_unusable_features", "cancellations_without_deadlines", "sasl_response_writes_lost", "refusal_shapes_failed_closed", "header_refusals_failed_closed", "golden_runs_that_consumed_the_whole_script", "voluntary_restart_handshakes", "cancellations_issued", "cancellations_that_reached_the_deadlines",
 			"step_errors_logged", "step_errors_logged:negotiate", "step_errors_logged:list", "step_errors_logged:parse", "failed_steps_with_mask", "failed_closed"},
 		Witnesses: map[string]func(*core.Case){
